@@ -305,7 +305,7 @@ func init() {
 			var us []vh.Unit
 			depth, n := 3, 16
 			if tier == "thorough" {
-				depth, n = 4, 48
+				depth, n = 5, 64
 			}
 			for s := 0; s < n; s++ {
 				us = append(us, c06Unit(depth, s, n))
